@@ -353,3 +353,53 @@ def date_key(t):
     if len(t) == 3:
         return cal_abs(t[0], t[1], t[2])
     return dby(t[0]) + t[1]
+
+
+def dim_idx(j):
+    """Length of the month with linear index j = 12 * year + (month - 1)."""
+    return dim(j // 12, j % 12 + 1)
+
+
+def midx(p):
+    """Linear month index of a calendar-form point."""
+    return 12 * p._year + p._month_of_year - 1
+
+
+def same_time_and_zone(r, p):
+    ok = (r._hour_of_day == p._hour_of_day
+          and r._time_zone._hours == p._time_zone._hours
+          and r._time_zone._minutes == p._time_zone._minutes)
+    if p._minute_of_hour is not None:
+        ok = ok and r._minute_of_hour == p._minute_of_hour
+    if p._second_of_minute is not None:
+        ok = ok and r._second_of_minute == p._second_of_minute
+    return ok
+
+
+def d_exact_zero(d):
+    """No exact component (days, hours, minutes, seconds all zero)."""
+    return (d_days(d) == 0 and d_hours(d) == 0 and d_minutes(d) == 0
+            and d_seconds(d) == 0)
+
+
+def years_only(d):
+    return d_exact_zero(d) and d_months(d) == 0
+
+
+def months_only(d):
+    return d_exact_zero(d) and d_years(d) == 0
+
+
+def year_step_ok(r, p, n):
+    """r is p moved by n years with end-of-period clamping (C05)."""
+    ok = r._year == p._year + n
+    if p._month_of_year is not None:
+        ok = ok and r._month_of_year == p._month_of_year
+        ok = ok and r._day_of_month == min(
+            p._day_of_month, dim(r._year, p._month_of_year))
+    elif p._day_of_year is not None:
+        ok = ok and r._day_of_year == min(p._day_of_year, diy(r._year))
+    else:
+        ok = ok and r._week_of_year == min(p._week_of_year, wiy(r._year))
+        ok = ok and r._day_of_week == p._day_of_week
+    return ok
